@@ -80,7 +80,8 @@ def check_case(case):
     elif not case.get("far", True):
         shells = shells[:-1]  # the far-out thin shell is run for xfab.laue on the first cell of each setting only (C14 compares the modules)
     bounds = [(orc.bound(t0), orc.bound(t1)) for (t0, t1) in shells]
-    vals = np.unique(np.round(orc.s[~orc.ext], 10))
+    hint = max(s_[1] for s_ in shells)  # the oracle's index box is complete up to this value only: tight limits are chosen below it
+    vals = np.unique(np.round(orc.s[(~orc.ext) & (orc.s <= 0.999 * hint)], 10))
     if len(vals) > 8:  # bounds 5e-9 (relative) below / above lattice-point values (see C05)
         u, v = float(vals[len(vals) // 9]), float(vals[len(vals) // 4])
         bounds += [(u * (1 - 5e-9), v * (1 - 5e-9)), (u * (1 + 5e-9), v * (1 + 5e-9))]
